@@ -239,6 +239,25 @@ class ExactClassifier(BaseEstimator):
         return res
 
 
+class NestedPeer(BaseEstimator):
+    """Composite peer (like a Pipeline or a user wrapper): ``fit`` trains the nested learner *in place*.
+    A caller that only shallow-copies this object shares the nested learner between copies."""
+
+    def __init__(self, inner=None):
+        self.inner = inner
+
+    def fit(self, X, y, sample_weight=None):
+        self.inner.fit(X, y, sample_weight=sample_weight)
+        self.classes_ = np.array([0, 1])
+        return self
+
+    def predict(self, X):
+        return self.inner.predict(X)
+
+    def predict_proba(self, X):
+        return self.inner.predict_proba(X)
+
+
 class ExactRegressor(BaseEstimator):
     """Piecewise-constant regressor: per feature value the weighted mean
     (exact weighted least squares) or the weighted median (exact weighted
